@@ -422,7 +422,10 @@ class IR:
                     e = ("deref", e, PENDING)
             elif isinstance(el, dict):
                 if "f" in el:
-                    e = ("field", e, el["n"] if el["n"] else el["f"])
+                    fn_ = el["n"] if el["n"] else el["f"]
+                    if isinstance(fn_, str) and fn_.isdigit():
+                        fn_ = int(fn_)
+                    e = ("field", e, fn_)
                 elif "dc" in el:
                     e = ("variant", e, el["dc"] or el["v"])
                 elif "ix" in el:
@@ -504,7 +507,7 @@ class IR:
         if k == "agg":
             ops = [self.operand(o, at, depth) for o in r["ops"]]
             if r["ak"] == "adt":
-                names = r.get("fields", [])
+                names = [int(n) if isinstance(n, str) and n.isdigit() else n for n in r.get("fields", [])]
                 fl = tuple((names[i] if i < len(names) else i, ops[i]) for i in range(len(ops)))
                 return ("agg", "adt", norm_path(r["adt"]), r["variant"], fl)
             if r["ak"] == "closure":
